@@ -36,10 +36,10 @@ Variable lang_match : str -> item -> item -> fmap str -> outcome bool.
 (* a page never holds more items than the limit: items <= count <= limit *)
 Definition page_inv (limit : nat) (s : sstate) : Prop := List.length (s_items s) <= s_count s /\ s_count s <= limit.
 
-Lemma search_step_inv c t q sik spk e s s' brk :
+Lemma search_step_inv c t q hp sik spk e s s' brk :
   q_cond q = None -> 0 < q_limit q ->
   List.length (s_items s) <= s_count s -> s_count s < q_limit q ->
-  search_step lang_match c t q sik spk e s = Ok (s', brk) ->
+  search_step lang_match c t q hp sik spk e s = Ok (s', brk) ->
   List.length (s_items s') <= s_count s' /\
   (if brk then s_count s' = q_limit q else s_count s' < q_limit q).
 Proof.
@@ -69,22 +69,22 @@ Proof.
       destruct ety; try congruence; destruct matched; rewrite ?app_length; cbn [List.length];
         match goal with |- context [Nat.eqb ?a ?b] => destruct (Nat.eqb_spec a b) end; lia. }
     destruct (s_started s); [apply Go|].
-    destruct sik; [intros E; inversion E; subst; cbn; split; [exact I1|exact I2]|].
+    destruct hp; [|intros E; inversion E; subst; cbn; split; [exact I1|exact I2]].
     destruct (after_start_key _ _ _ _ _); [apply Go|].
     intros E; inversion E; subst; cbn; split; [exact I1|exact I2].
   - intros E; inversion E; subst; cbn. split; [exact I1|exact I2].
 Qed.
 
-Lemma search_loop_inv c t q sik spk es : forall s s',
+Lemma search_loop_inv c t q hp sik spk es : forall s s',
   q_cond q = None -> 0 < q_limit q ->
   List.length (s_items s) <= s_count s -> s_count s < q_limit q ->
-  search_loop lang_match c t q sik spk es s = Ok s' ->
+  search_loop lang_match c t q hp sik spk es s = Ok s' ->
   List.length (s_items s') <= s_count s' /\ s_count s' <= q_limit q.
 Proof.
   induction es as [|e es IH]; intros s s' Hc Hl I1 I2; cbn [search_loop].
   - intros E; inversion E; subst. split; [exact I1|lia].
-  - destruct (search_step lang_match c t q sik spk e s) as [[s1 brk]| | |] eqn:St; cbn [obind]; try discriminate.
-    destruct (search_step_inv _ _ _ _ _ _ _ _ _ Hc Hl I1 I2 St) as [J1 J2].
+  - destruct (search_step lang_match c t q hp sik spk e s) as [[s1 brk]| | |] eqn:St; cbn [obind]; try discriminate.
+    destruct (search_step_inv _ _ _ _ _ _ _ _ _ _ Hc Hl I1 I2 St) as [J1 J2].
     destruct brk.
     + intros E; inversion E; subst. split; [exact J1|lia].
     + apply IH; auto.
@@ -95,7 +95,7 @@ Theorem page_size_le_limit c t q items lek f :
   search_data lang_match c t q = Ok (items, lek, f) -> List.length items <= q_limit q.
 Proof.
   intros Hc Hl. unfold search_data.
-  match goal with |- context [search_loop lang_match c t q ?a ?b ?es ?s0] => destruct (search_loop lang_match c t q a b es s0) as [s'| | |] eqn:L end;
+  match goal with |- context [search_loop lang_match c t q ?h ?a ?b ?es ?s0] => destruct (search_loop lang_match c t q h a b es s0) as [s'| | |] eqn:L end;
     cbn [obind]; try discriminate.
   apply search_loop_inv in L; auto; cbn; try lia.
   intros E; inversion E; subst. lia.
